@@ -9,6 +9,8 @@ MCLvValues == {-4, 4}
 MCInnerMins == {-8, 100}
 MCOutcomes == {"nil", "e1"}
 MCOutcome1 == {"nil"}
+AllKinds == {"new", "rewrap", "attrs", "group", "enabled", "handle", "log", "unwrap", "setlevel"}
+TreeKinds == {"new", "rewrap", "attrs", "group", "setlevel"}
 TraceLevels == -64..64
 TraceInnerMins == -200..200
 TraceOutcomes == {"nil", "e1", "e2", "e3"}
